@@ -940,7 +940,10 @@ def rotation_hazard_facts(run, cls):
                 if all(isinstance(b, (ast.Continue, ast.Pass)) for b in st.body):
                     plain_skip = True
     facts = []
-    ok = (not hazards) or bool(reorder) or not plain_skip
+    marker_rotation = any(isinstance(n, ast.Call) and (method_call(n) or ("", ""))[1] == "rotate" and any(
+        isinstance(c, ast.Call) and (method_call(c) or ("", ""))[1] == "index" for c in ast.walk(n)) for n in reorder)
+    doers_order = bool(_sorted_by_doers_index(exit_, _doers_index_maps(exit_)))
+    ok = (not hazards) or marker_rotation or doers_order or not plain_skip
     what = ""
     trail = None
     if not ok:
@@ -950,7 +953,7 @@ def rotation_hazard_facts(run, cls):
                 "yet run (entered later) - forced exits are not in reverse enter order" % (recur.qualname, oc[1]))
     facts.append(Fact("rotation-hazard", ok, ok, run.site(exit_), what, trail, len(res)))
     note = None
-    if hazards and reorder:
+    if hazards and reorder and not doers_order:
         note = "%s: reordering present in exit() (%s); its correctness is not decided" % (cls.name, unparse(reorder[0]))
     return facts, note
 
@@ -1416,3 +1419,86 @@ def extend_atomic_facts(run, cls):
     run.paths += len(res)
     bad = [tr for (st, oc), tr in res.items() if is_raise(oc) and st]
     return {"extend.failed-enter-leaves-doers-unchanged": (not bad, run.site(f))}
+
+
+# ------------------------------------------------------------ C02.R6 close order source
+def _doers_index_maps(f):
+    """locals bound to a map from doer (identity) to its position in self.doers: {id(d): i for i, d in enumerate(self.doers)}"""
+    out = set()
+    for n in walk_local(f.node):
+        if isinstance(n, ast.Assign) and isinstance(n.targets[0], ast.Name) and isinstance(n.value, ast.DictComp) and len(n.value.generators) == 1:
+            g = n.value.generators[0]
+            if isinstance(g.iter, ast.Call) and dotted(g.iter.func) == "enumerate" and g.iter.args and dotted(g.iter.args[0]) == "self.doers" \
+                    and isinstance(g.target, ast.Tuple) and len(g.target.elts) == 2 and all(isinstance(e, ast.Name) for e in g.target.elts):
+                i, d = (e.id for e in g.target.elts)
+                key_ok = dotted(n.value.key) == d or (isinstance(n.value.key, ast.Call) and dotted(n.value.key.func) == "id"
+                                                      and n.value.key.args and dotted(n.value.key.args[0]) == d)
+                if key_ok and dotted(n.value.value) == i:
+                    out.add(n.targets[0].id)
+    return out
+
+
+def _sorted_by_doers_index(f, maps):
+    """[(assign node, target name, source name)] for `T = [deque(]sorted(S, key=lambda deed: M[...deed[2]...])[)]` with M a doers-index map"""
+    hits = []
+    for n in walk_local(f.node):
+        if not (isinstance(n, ast.Assign) and isinstance(n.targets[0], ast.Name)):
+            continue
+        for c in ast.walk(n.value):
+            if isinstance(c, ast.Call) and dotted(c.func) == "sorted" and c.args:
+                key = kwarg_(c, "key")
+                if isinstance(key, ast.Lambda) and not kwarg_(c, "reverse"):
+                    used = {x.id for x in ast.walk(key.body) if isinstance(x, ast.Name)}
+                    third = any(isinstance(x, ast.Subscript) and getattr(x.slice, "value", None) == 2 and dotted(x.value) == key.args.args[0].arg
+                                for x in ast.walk(key.body))
+                    if used & maps and third:
+                        hits.append((n, n.targets[0].id, dotted(c.args[0])))
+    return hits
+
+
+def close_order_facts(run, cls):
+    """The deque is not in enter order in general: extend() called from inside a recur appends the new deeds behind the marker, and the
+    deeds not yet run in that recur are re-appended behind them (facts of C02.R1/C03.R2); `.doers` is kept in insertion = enter order
+    (C06).  So exit() and remove() must take the close order from the position of each deed's doer in self.doers, and close from the
+    right."""
+    ix = run.ix
+    facts = []
+    ex = ix.method(cls, "exit")
+    maps = _doers_index_maps(ex)
+    hits = _sorted_by_doers_index(ex, maps)
+    loops = deque_loops(ex)
+    ok, why = False, ""
+    if not maps or not hits:
+        rev = any(isinstance(n, ast.For) and isinstance(n.iter, ast.Call) and dotted(n.iter.func) == "reversed" and n.iter.args
+                  and dotted(n.iter.args[0]) == "self.doers" for n in walk_local(ex.node))
+        ok = rev
+        why = ("%s.exit closes the deeds in the order they sit in the deque; after extend() from inside a recur the new deeds sit before the deeds "
+               "not yet run in that recur, so still-alive doers are force exited out of reverse enter order (enter a,b,c,x exits c,b,x,a); "
+               "the close order must come from self.doers" % cls.name)
+    else:
+        node, tgt, src = hits[0]
+        # the sorted order must be what the close loop pops: written back into the deque (clear + extend) or the loop pops the target
+        wrote_back = any(isinstance(c, ast.Call) and (method_call(c) or ("", ""))[1] == "extend" and c.args and dotted(c.args[0]) == tgt
+                         and method_call(c)[0] == src for c in walk_local(ex.node))
+        cleared = any(isinstance(c, ast.Call) and method_call(c) == (src, "clear") for c in walk_local(ex.node))
+        pops = {l[2] for l in loops}
+        before = all(node.lineno < l[0].lineno for l in loops) and bool(loops)
+        ok = before and ((wrote_back and cleared and src in pops) or tgt in pops)
+        why = "" if ok else "%s.exit sorts the deeds by position in self.doers but the close loop does not pop that order" % cls.name
+    facts.append(("exit.closes-in-doers-order", ok, run.site(ex), "" if ok else why))
+    rm = ix.method(cls, "remove")
+    maps = _doers_index_maps(rm)
+    hits = _sorted_by_doers_index(rm, maps)
+    exits = [n for n in walk_local(rm.node) if isinstance(n, ast.Call) and is_self_call(n, "exit")]
+    def unwrap(e):
+        while isinstance(e, ast.Call) and dotted(e.func) in ("deque", "list", "tuple") and len(e.args) == 1:
+            e = e.args[0]
+        return e
+    passed = {dotted(unwrap(kwarg_(n, "deeds") or (n.args[0] if n.args else None))) for n in exits}
+    dels = [n for n in walk_local(rm.node) if isinstance(n, ast.Call) and method_call(n) == ("self.doers", "remove")]
+    ok = bool(hits) and hits[0][1] in passed and all(hits[0][0].lineno < d.lineno for d in dels) and bool(dels)
+    facts.append(("remove.closes-in-doers-order", ok, run.site(rm, hits[0][0]) if hits else run.site(rm),
+                  "" if ok else "%s.remove hands exit() the removed deeds in the order they sat in the deque (rotated by the once-through marker when "
+                  "called from inside a recur): removing a and e from c's recur closes a before e; order them by position in self.doers "
+                  "before the doers are deleted from it" % cls.name))
+    return facts
